@@ -148,6 +148,12 @@ def fg_id_numpy(  # noqa: PLR0913
         # Assign fg to einstandspartner
         if current_p_id_einstandspartner >= 0:
             p_id_to_fg_id[current_p_id_einstandspartner] = next_fg_id
+            # The partner is never visited as head of a fg, so collect his / her
+            # children here. Otherwise they would only be found if their own parent
+            # happens to be listed before the partner.
+            current_p_id_children = current_p_id_children + p_id_to_p_ids_children.get(
+                current_p_id_einstandspartner, []
+            )
 
         # Assign fg to children
         for current_p_id_child in current_p_id_children:
@@ -158,6 +164,9 @@ def fg_id_numpy(  # noqa: PLR0913
 
             if (
                 child_hh_id == current_hh_id
+                # Children with a partner form their own fg with that partner,
+                # irrespective of who is listed first
+                and p_id_einstandspartner[child_index] < 0
                 # TODO (@MImmesberger): Check correct conditions for grown up children
                 # https://github.com/iza-institute-of-labor-economics/gettsim/pull/509
                 # TODO(@MImmesberger): Remove hard-coded number
